@@ -1,109 +1,38 @@
-"""findings_C16.py — trigger predicates of the open known findings of C16 (findings/C16.entries.json).
+"""findings_C16.py — trigger predicate of the open known finding of C16 (findings/C16.entries.json).
 
-Each predicate decides from the *case* (problem text + operation program): the program contains an
-operation of the defect class at or before the operation after which the sentence fails (the class is
-the one the model's side conditions links_safe / linked_safe / univ_safe single out, asked from the
-extracted model for this very program), the failing sentence is the one this defect breaks, and the same
-program without the operations of the class passes the oracle — so a different violation of C16 in the
-same program is still reported."""
+The predicate decides from the *case* (problem text + operation program): the program appends, at or
+before the operation after which sentence S3 fails, a cell that the model's side condition univ_safe
+singles out (asked from the extracted model for this very program: the cell is in no universe the problem
+holds), and the same program without these operations passes the oracle — so a different violation of C16
+in the same program is still reported."""
 import props.C16 as C16
-
-
-def _parts(case):
-    c = case.get("case")
-    f = case.get("detail") or {}
-    if not c or "ops" not in c or case.get("kind") != "oracle":
-        return None, None
-    return C16.norm_case(c), f
-
-
-def _bits(c):
-    r = C16.run_real(c, want_oracle=False)
-    if r["status"] != "ok":
-        return None, None
-    ans = C16.model_answer(r)
-    return r, C16.safe_bits(ans)
-
-
-def _passes_without(c, idx, blind):
-    ops = [op for i, op in enumerate(c["ops"]) if i not in idx]
-    return C16.oracle_failure(dict(c, ops=ops), blind=blind) is None
-
-
-def _decide(case, sentence, col, kinds, need_ok=False):
-    c, f = _parts(case)
-    if c is None:
-        return False
-    s = f.get("sentence", "")
-    blind = s.startswith("unobserved run: ")
-    if blind:
-        s = s[len("unobserved run: "):]
-    if not s.startswith(sentence):
-        return False
-    r, bits = _bits(c)
-    if r is None:
-        return False
-    at = f.get("at_op", len(c["ops"]) - 1)
-    idx = set()
-    for i, op in enumerate(c["ops"]):
-        if i == 0 or i > at or op[0] not in kinds or i >= len(bits):
-            continue
-        if bits[i][col:col + 1] != "0":
-            continue
-        if need_ok and r["results"][i] != "ok":
-            continue
-        idx.add(i)
-    return bool(idx) and _passes_without(c, idx, blind)
-
-
-def C16_dedup_relink(case, params):
-    """remove_duplicate_surfaces() re-runs pointer resolution: every cell.surfaces / cell.complements is emptied"""
-    return _decide(case, "S1", 0, ("dedup",))
-
-
-def C16_inplace_operator(case, params):
-    """node &= x / node |= x / node.left &= x on a node of cell.geometry (not through the geometry setter)"""
-    return _decide(case, "S1", 0, ("iopi", "iopc"), need_ok=True)
-
-
-def C16_divider_unlinked_leaf(case, params):
-    """leaf.divider = s on a leaf of a geometry that was assigned through the API (only its root knows the cell)"""
-    return _decide(case, "S1", 0, ("div",), need_ok=True)
-
-
-def C16_children_unlinked(case, params):
-    """add_cell_children_to_problem() replaces the collections by unlinked ones"""
-    c, f = _parts(case)
-    if c is None:
-        return False
-    s = f.get("sentence", "").replace("unobserved run: ", "")
-    if not s.startswith("S4"):
-        return False
-    at = f.get("at_op", len(c["ops"]) - 1)
-    idx = {i for i, op in enumerate(c["ops"]) if op[0] == "children" and i <= at}
-    return bool(idx) and _passes_without(c, idx, f.get("sentence", "").startswith("unobserved"))
-
-
-def C16_children_sort_crash(case, params):
-    """add_cell_children_to_problem() raises while re-sorting the data inputs (two un-numbered cards of one
-    prefix): the new materials / transforms never reach the data inputs and are not written"""
-    c, f = _parts(case)
-    if c is None:
-        return False
-    s = f.get("sentence", "")
-    if not (s.startswith("S5") and "written" in s):
-        return False
-    r = C16.run_real(c, want_oracle=False)
-    if r["status"] != "ok":
-        return False
-    ans = C16.model_answer(r).split("#")
-    at = f.get("at_op", -1)
-    if not (0 <= at < len(ans)) or c["ops"][at][0] != "children":
-        return False
-    # the model (dcrash over the data inputs of the case) predicts the crash
-    return ans[at].startswith("err:AttributeError")
 
 
 def C16_new_cell_no_universe(case, params):
     """a Cell() made through the API and appended to problem.cells has universe None"""
-    return _decide(case, "S3", 2, ("app", "ext", "iadd"), need_ok=True)
+    c = case.get("case")
+    f = case.get("detail") or {}
+    if not c or "ops" not in c or case.get("kind") != "oracle":
+        return False
+    c = C16.norm_case(c)
+    s = f.get("sentence", "")
+    blind = s.startswith("unobserved run: ")
+    if blind:
+        s = s[len("unobserved run: "):]
+    if not s.startswith("S3"):
+        return False
+    r = C16.run_real(c, want_oracle=False)
+    if r["status"] != "ok":
+        return False
+    bits = C16.safe_bits(C16.model_answer(r))
+    at = f.get("at_op", len(c["ops"]) - 1)
+    idx = set()
+    for i, op in enumerate(c["ops"]):
+        if i == 0 or i > at or i >= len(bits) or op[0] not in ("app", "ext", "iadd") or op[1] != "c":
+            continue
+        if bits[i][2:3] == "0" and r["results"][i] == "ok":
+            idx.add(i)
+    if not idx:
+        return False
+    ops = [op for i, op in enumerate(c["ops"]) if i not in idx]
+    return C16.oracle_failure(dict(c, ops=ops), blind=blind) is None
